@@ -151,6 +151,34 @@ def t_add(case):
     return t
 
 
+def t_batch(empty):
+    """trace contract of CandlesState.batch_add_candle (warm-up injection, required-candles loading): every candle of the batch
+    goes through add_candle - the append / replace-by-timestamp logic - in order, and the storage is touched by nothing else"""
+    def t(h):
+        st, arr = mk_store(h, '1m')
+        if empty:
+            h.assume(ops.equal(arr.f['index'], -1))
+        before = (arr.f['index'], arr.f['array'])
+        calls = []
+        h.ctx.cfg.overrides[f'{CS}.add_candle'] = lambda i, a, k: calls.append((a[1], tuple(a[2:5]), dict(k)))
+        rows = [h.vec(f'b{j}_', 6) for j in range(3)]
+        batch = Arr(3, (lambda kk, rows=rows: ops.pick(rows, kk)), np=True, cols=6)
+        h.cover('batch.pre')
+        out = h.method_outcome(st, 'batch_add_candle', batch, 'Sandbox', 'BTC-USDT', '1m', with_generation=False)
+        h.prove(out.ok, 'batch.no-exception', {'raised': out.exc})
+        if not out.ok:
+            return
+        ok = len(calls) == 3 and all(c[1] == ('Sandbox', 'BTC-USDT', '1m') for c in calls)
+        if ok:
+            for j, c in enumerate(calls):
+                row = c[0]
+                same = isinstance(row, Vec) and all(ops.equal(x, y) is True for x, y in zip(row.e, rows[j].e))
+                ok = ok and same and c[2].get('with_execution') is False
+        h.prove(ok, 'batch.every-candle-goes-through-add_candle-in-order', {'calls': len(calls)})
+        h.prove(arr.f['index'] is before[0] and arr.f['array'] is before[1], 'batch.storage-is-touched-by-add_candle-only')
+    return t
+
+
 def t_multi(case):
     def t(h):
         st, arr = mk_store(h, '1m')
@@ -272,10 +300,13 @@ def tasks(tier):
     xf['havoc'] = {fill_key: {'candles': lambda interp, old: records_for(interp)}}
     xa = dict(x)
     xa['frame'] = {add_key: ['arr']}
+    xf = dict(xf, task_timeout_s=900)
     ts = [Task('fill', t_fill, extra=xf, overrides=dict(ov), invariants={fill_key: K.FILL_INV}),
           Task('fill.empty', t_fill_empty, extra=x, overrides=dict(ov))]
     for case in ('empty', 'newer', 'stored'):
         ts.append(Task(f'add.{case}', t_add(case), extra=dict(xa), overrides=dict(ov), invariants={add_key: K.ADD_INV}))
+    for empty in (True, False):
+        ts.append(Task(f'batch.{"empty" if empty else "filled"}', t_batch(empty), extra=x, overrides=dict(ov)))
     ts.append(Task('add.zero', t_add_zero, extra=dict(xa), overrides=dict(ov), invariants={add_key: K.ADD_INV}))
     for case in ('empty', 'newer', 'same', 'overlap'):
         ts.append(Task(f'multi.{case}', t_multi(case), extra=x, overrides=dict(ov)))
